@@ -267,7 +267,7 @@ def glue(out, mc, results):
         fn = cand[0]
         for ob in obs.values():
             ob.functions = [fn.name, "DiagnosticAction::is_match"]
-        ex = symex.Executor(fns, enums=enums, max_visits=3)
+        ex = symex.Executor(fns, enums=enums, max_visits=symex.visits(3))
         install_models(ex, U)
         st = symex.State()
         st.pc = list(U.base)
@@ -451,7 +451,7 @@ def any_action(out, mc, results, fns, enums):
         ob.status = "inconclusive"
         ob.detail = "function not found"
         return
-    ex = symex.Executor(fns, enums=enums, max_visits=3)
+    ex = symex.Executor(fns, enums=enums, max_visits=symex.visits(3))
     paths = ex.run(fn[0])
     fails = []
     n = 0
